@@ -154,7 +154,9 @@ type executor struct {
 	resolveFor    *knownNode
 	resolveMemo   map[*Val]*Val
 	condMemo      map[string]int8
-	mute          int // >0: obligations are not recorded (second execution of call2 hooks)
+	offCases      map[string][]offCase // offset terms that are small case splits over constants
+	mute          int                  // >0: obligations are not recorded (second execution of call2 hooks)
+	ghost         int                  // >0: helper calls belong to the hypothetical second execution of a call2 hook
 	noStoreEvents bool
 	pktOpaque     bool // a helper modified packet bytes (no store event describes it)
 }
@@ -312,6 +314,8 @@ func (e *executor) gep(base *Val, srcTy *Type, idx []*Val) (*Val, error) {
 	var constOff int64
 	off := p.Off
 	ub := p.OffUB
+	var treeCases []offCase // the single variable index is an ite tree over constants
+	treeSeen := false
 	for k, ix := range idx {
 		var scale int64
 		if k == 0 {
@@ -349,6 +353,12 @@ func (e *executor) gep(base *Val, srcTy *Type, idx []*Val) (*Val, error) {
 			constOff += signExt(c, ix.W) * scale
 			continue
 		}
+		if constTree(ix) && treeCases == nil && !treeSeen {
+			treeSeen = true
+			leafCases(ix, smt.True, scale, &treeCases)
+		} else {
+			treeCases, treeSeen = nil, true
+		}
 		var t smt.Term
 		nonneg := ix.W < 64 && ix.UB < (uint64(1)<<uint(ix.W-1)) || ix.W == 64 && ix.UB < (uint64(1)<<62)
 		if nonneg {
@@ -372,9 +382,16 @@ func (e *executor) gep(base *Val, srcTy *Type, idx []*Val) (*Val, error) {
 	} else {
 		ub = satAdd(ub, uint64(constOff))
 	}
+	baseConst, baseIsConst := bvConst(p.Off)
 	off = e.tm.addConst(off, uint64(constOff))
 	if c, ok := bvConst(off); ok {
 		ub = c
+	} else if baseIsConst && len(treeCases) > 0 && len(treeCases) <= 8 {
+		cs := make([]offCase, len(treeCases))
+		for i, tc := range treeCases {
+			cs[i] = offCase{cond: tc.cond, off: int64(baseConst) + constOff + tc.off}
+		}
+		e.offCases[off.S] = cs
 	}
 	return &Val{W: 64, IsPtr: true, P: &Ptr{Reg: p.Reg, Off: off, OffUB: ub, Cands: p.Cands}}, nil
 }
@@ -1467,4 +1484,22 @@ func (e *executor) nullTest(v *Val, depth int) smt.Term {
 		return smt.Ite(c, a, b)
 	}
 	return smt.Eq(p.Reg, regLit(ridNull))
+}
+
+// offCase: under cond the offset term equals the constant off.
+type offCase struct {
+	cond smt.Term
+	off  int64
+}
+
+// leafCases lists the (path condition, scaled constant) pairs of an ite tree
+// with literal leaves; the conditions are exhaustive and mutually exclusive.
+func leafCases(v *Val, pc smt.Term, scale int64, out *[]offCase) {
+	if v.Ite == nil {
+		c, _ := bvConst(v.T)
+		*out = append(*out, offCase{cond: pc, off: signExt(c, v.W) * scale})
+		return
+	}
+	leafCases(v.Ite.A, smt.And(pc, v.Ite.C), scale, out)
+	leafCases(v.Ite.B, smt.And(pc, smt.Not(v.Ite.C)), scale, out)
 }
